@@ -259,6 +259,51 @@ pub fn adler32(data: &[u8]) -> u32 {
 
 /// structured random plaintext of roughly `target` bytes
 pub fn gen_plaintext(rng: &mut Rng, target: usize) -> Vec<u8> {
+    // one in eight plaintexts is degenerate as a whole: a single period, a single run, a two
+    // symbol alphabet ... (single-code Huffman trees, one distance only, no match at all)
+    if rng.chance(1, 8) {
+        let mut out: Vec<u8> = Vec::with_capacity(target + 8);
+        match rng.below(6) {
+            0 => {
+                let p = rng.range(1, 6) as usize;
+                let pat: Vec<u8> = (0..p).map(|_| b'a' + rng.below(26) as u8).collect();
+                for i in 0..target {
+                    out.push(pat[i % p]);
+                }
+            }
+            1 => {
+                let b = rng.below(256) as u8;
+                out.resize(target, b);
+            }
+            2 => {
+                for _ in 0..target {
+                    out.push(if rng.chance(1, 2) { b'0' } else { b'1' });
+                }
+            }
+            3 => {
+                // period-2 body with rare disturbances (almost every match has distance 2)
+                let (a, b) = (rng.below(256) as u8, rng.below(256) as u8);
+                for i in 0..target {
+                    out.push(if rng.chance(1, 300) { rng.below(256) as u8 } else if i % 2 == 0 { a } else { b });
+                }
+            }
+            4 => {
+                // strictly increasing bytes: no match at all
+                for i in 0..target {
+                    out.push((i % 251) as u8 ^ ((i / 251) as u8).wrapping_mul(37));
+                }
+            }
+            _ => {
+                // long runs of few different bytes
+                while out.len() < target {
+                    let b = *rng.pick(b"xyz");
+                    let n = rng.range(1, 700) as usize;
+                    out.extend(std::iter::repeat(b).take(n.min(target - out.len())));
+                }
+            }
+        }
+        return out;
+    }
     let mut out: Vec<u8> = Vec::with_capacity(target + 512);
     // vocabulary for word soup
     let nwords = rng.range(8, 120) as usize;
